@@ -244,7 +244,7 @@ def variant_field_bits(prog, enum_name, skip=()):
                  and b.get('impl') and b['impl'].get('self') == enum_name), None)
     if body is None:
         return {}
-    E = runner.make_engine(prog, K=64)
+    E = runner.make_engine(prog, K=8)
     E.skip_bodies = set(skip)
     cell = ('o', ('p', 'reader'))
     out = {}
